@@ -1,5 +1,6 @@
 import QipVerif.Lemmas.SchedGate
 import QipVerif.Lemmas.SchedC
+import QipVerif.Lemmas.SchedSafe
 import QipVerif.Lemmas.SchedOracle
 import Mathlib.Algebra.Group.Opposite
 import Mathlib.Algebra.BigOperators.Group.List.Lemmas
@@ -267,5 +268,51 @@ example (U : Matrix (St 2) (St 2) ℂ) (V : Matrix (St 1) (St 1) ℂ) :
     fin_cases p <;> (show _ ∈ Ins.used _; decide)
   · rintro _ ⟨p, rfl⟩
     fin_cases p; (show _ ∈ Ins.used _; decide)
+
+/-! ## (e″) over ℂ with no matrix hypothesis: `safeComm`
+
+Circuits are lists of IR gates (`QipVerif.Gate`: name, ordered targets, ordered controls, exact or
+symbolic angle); `insOf g` is what the scheduler sees of `g` (name, sorted targets, sorted controls);
+`denG N ρ gs` is the operator of the circuit on the `N`-qubit register for the valuation `ρ` of the
+symbolic angles (`Lemmas/Sem.lean`: generated rotation matrices at real angles, exact ℤ[ζ₁₆] matrices of
+the fixed gates mapped to ℂ).
+
+`safeComm N gs` is **decidable**: every gate has complex semantics and is well-formed on the register
+(`wfG`), and every pair `i < j` sharing a qubit which `commutation_rules` declares commuting belongs to
+a family for which commutation is **proved** (`safePair`, `Lemmas/SchedFam.lean`):
+same one-qubit name among `X Y Z S T SNOT SQRTNOT IDLE RX RY RZ PHASEGATE` on the same target (all angles);
+same controlled name among `CNOT CSIGN CZ CY CS CT CRX CRY CRZ CPHASE` with the same control or the same
+target (all angles); `CNOT` with `X`/`RX(θ)` on its target; `CNOT` with `Z`/`RZ(θ)` on its control;
+same name among `SWAP ISWAP SQRTSWAP SQRTISWAP BERKELEY` on the same ordered targets.
+It is `false` whenever a declared-commuting pair is a `TOFFOLI`/`FREDKIN` pair or a symmetric two-qubit
+pair listed in opposite orders, and whenever the circuit contains a name without complex semantics
+(`SWAPalpha R QASMU MS RZX`, user gates) — this includes every family on which the rule is unsound. -/
+
+/-- **schedule_den_C_safe.**  For every circuit with `safeComm N gs = true`, both methods, both
+permutation settings, every oracle and every valuation of the angles: the scheduled circuit (gates
+listed cycle by cycle) denotes the same operator as the original circuit.  No hypothesis on matrices. -/
+theorem schedule_den_C_safe (N : ℕ) (ρ : ℕ → ℝ) (gs : List Gate) (hO : ∀ r l, (O2 r l).Perm l)
+    (hs : safeComm N gs = true) :
+    denG N ρ (((cyclesGen alap allowPerm (gs.map insOf) O2).flatten).map (fun i => gs.getD i dfltGate)) =
+      denG N ρ gs :=
+  schedule_den_safe ρ alap allowPerm gs O2 hO hs
+
+/-- `H2` for one pair of a proved family, on every register (the content of `safeComm`) -/
+theorem safe_pair_commute (N : ℕ) (ρ : ℕ → ℝ) (a b : Gate) (A B : Matrix (St N) (St N) ℂ)
+    (ha : semD N ρ a = some A) (hb : semD N ρ b = some B) (h : safePair a b = true) : Commute A B :=
+  safePair_commute ρ a b A B ha hb h
+
+-- non-vacuity: a circuit with four different declared-commuting pairs (CNOT/RX on the target, two CNOTs
+-- with one control, CNOT/RZ on the control, two RZ on one qubit), symbolic angles, and a SWAP
+example : safeComm 3 [⟨.X, [0], [], {}⟩, ⟨.CNOT, [1], [0], {}⟩, ⟨.RX, [1], [], Ang.symb 0⟩, ⟨.CNOT, [2], [0], {}⟩,
+    ⟨.RZ, [0], [], Ang.symb 1⟩, ⟨.RZ, [0], [], Ang.symb 2⟩, ⟨.SWAP, [1, 2], [], {}⟩] = true := by decide +kernel
+
+example : commRules (insOf ⟨.CNOT, [1], [0], {}⟩) (insOf ⟨.RX, [1], [], Ang.symb 0⟩) = true ∧
+    safePair ⟨.CNOT, [1], [0], {}⟩ ⟨.RX, [1], [], Ang.symb 0⟩ = true := by decide +kernel
+
+-- the predicate refuses the unsound families: two FREDKIN gates sharing the control with overlapping targets
+-- (declared commuting, not a proved family), and any circuit containing a QASMU gate
+example : safeComm 4 [⟨.FREDKIN, [1, 2], [0], {}⟩, ⟨.FREDKIN, [2, 3], [0], {}⟩] = false ∧
+    safeComm 1 [⟨.QASMU, [0], [], {}⟩, ⟨.QASMU, [0], [], {}⟩] = false := by decide +kernel
 
 end QipVerif.C05
